@@ -199,9 +199,9 @@ class Result:
             # the harness itself died: sanitizer abort or harness bug.  A sanitizer report inside
             # the code under test is printed by the harness as FAIL before dying where possible;
             # anything else is a harness error.
-            if "ERROR: AddressSanitizer" in out or "runtime error:" in out:
+            if "ERROR: AddressSanitizer" in out or "runtime error:" in out or re.search(r"CURRENT-INPUT \S", out):
                 m = re.search(r"CURRENT-INPUT (.*)", out)
-                self.fails.append(("sanitizer:" + family, "sanitizer report in %s: %s" % (
+                self.fails.append(("sanitizer:" + family, "sanitizer report or fatal signal in %s: %s" % (
                     family, (m.group(1) if m else "?")), out[-3000:]))
             else:
                 sys.stderr.write("HARNESS-ERROR: %s exited %d\n%s\n" % (cmd, p.returncode, out[-3000:]))
@@ -228,11 +228,12 @@ class Result:
                 self.exhaustive = False
                 self.notes.append("CAPPED: %s hit the time cap and was stopped; its partial counters are not included" % fam)
             elif rc not in (0, 1):
-                if "ERROR: AddressSanitizer" in out or "runtime error:" in out:
+                if "ERROR: AddressSanitizer" in out or "runtime error:" in out or re.search(r"CURRENT-INPUT \S", out):
+                    # a sanitizer report, or the harness's fatal-signal handler naming the input it was running
                     m = re.search(r"CURRENT-INPUT (.*)", out)
                     rep = re.search(r"(ERROR: AddressSanitizer[^\n]*|[^\n]*runtime error:[^\n]*)", out)
                     self.fails.append(("sanitizer:" + fam + ":" + (m.group(1)[:200] if m else "?"),
-                                       "sanitizer report: %s" % (rep.group(1) if rep else "?"), out[-3000:]))
+                                       "%s" % ("sanitizer report: " + rep.group(1) if rep else "the code under test died (exit status %d)" % rc), out[-3000:]))
                 else:
                     sys.stderr.write("HARNESS-ERROR: %s exited %d\n%s\n" % (cmd, rc, out[-3000:]))
                     sys.exit(2)
